@@ -64,6 +64,11 @@ pub enum SOp {
     Sync,
     /// replica-side clear(i, i+1) of a held block whose neighbours are held or log ends (C08)
     RClear(u16),
+    /// replica-side clear(start, end) of an arbitrary range, start = sel(a, length),
+    /// end = start + 1 + sel(b, length + 2 - start). The call may legitimately fail (the replica can
+    /// lack the tree nodes for the byte range of blocks it never fetched); C08 only requires that
+    /// has()/contiguous_length stay exact.
+    RClearRange(u16, u16),
 }
 
 // ------------------------------------------------------------------ generators
@@ -647,6 +652,55 @@ impl RSim {
         self.check_replica(Some(i), "after-replica-clear")
     }
 
+    /// Replica-side clear of an arbitrary range. Ok => the range is cleared. Err => accepted,
+    /// but the bits must then be either all cleared or all unchanged (decided by observation).
+    pub fn replica_clear_range(&mut self, a: u16, b: u16, local: &mut Local) -> Check {
+        let step = self.step;
+        let len = self.rm.length;
+        if len == 0 {
+            local.class("replica_clear_range_skipped");
+            return Ok(());
+        }
+        let start = sel(a, len);
+        let end = start + 1 + sel(b, len + 2 - start);
+        let r = self.replica();
+        let res = match catch(|| block_on(r.clear(start, end))) {
+            Ok(x) => x,
+            Err(p) => return Err(panic_failure(&format!("session step {step}: replica clear({start},{end})"), &p)),
+        };
+        let in_range: Vec<u64> = self.rm.held.range(start..end).copied().collect();
+        match res {
+            Ok(()) => {
+                local.class("replica_clear_range:ok");
+                for i in &in_range {
+                    self.rm.held.remove(i);
+                }
+            }
+            Err(_) if self.rdisk.fault_hit() => return Ok(()),
+            Err(e) => {
+                local.class("replica_clear_range:err(accepted)");
+                let r = self.replica();
+                let still: Vec<bool> = in_range.iter().map(|i| r.has(*i)).collect();
+                if still.iter().all(|x| !*x) {
+                    for i in &in_range {
+                        self.rm.held.remove(i);
+                    }
+                } else if !still.iter().all(|x| *x) {
+                    return Err(fail_at(
+                        step,
+                        "replica-clear-range-partially-applied",
+                        format!("replica clear({start},{end}) failed ({e}) and left the held blocks of the range partly cleared: {:?}", in_range.iter().zip(still.iter()).collect::<Vec<_>>()),
+                    ));
+                }
+            }
+        }
+        self.r_journal_tick();
+        if self.quiet {
+            return Ok(());
+        }
+        self.check_replica(None, "after-replica-clear-range")
+    }
+
     pub fn apply(&mut self, op: &SOp, local: &mut Local) -> Check {
         match op {
             SOp::W(o) => self.writer_op(o)?,
@@ -661,6 +715,7 @@ impl RSim {
             }
             SOp::Sync => self.sync_all(local)?,
             SOp::RClear(x) => self.replica_clear(*x, local)?,
+            SOp::RClearRange(a, b) => self.replica_clear_range(*a, *b, local)?,
         }
         self.step += 1;
         Ok(())
